@@ -26,13 +26,13 @@ deriving Repr, Inhabited
 def reqIfaces (inp : Input) : List ReqIface :=
   (requested inp).filterMap fun (n, mk, o) =>
     match o with
-    | some (.iface ms g tps tn) => some ⟨n, mk, ms, g, tps, tn⟩
+    | some (.iface ms g tps tn _) => some ⟨n, mk, ms, g, tps, tn⟩
     | _ => none
 
 def allLookupsOK (inp : Input) : Bool :=
   !inp.args.isEmpty && (requested inp).all fun (_, _, o) =>
     match o with
-    | some (.iface ..) => true
+    | some (.iface _ _ _ true _) => true
     | _ => false
 
 def dstPath (inp : Input) : Str := findPkgPath inp.pkgFlag inp.srcPath inp.probe
